@@ -165,6 +165,9 @@ func genCase(r *kit.Rand, i int, tier string) (chain, stop, class string, n int)
 // backlog). The parent's exit path must close EVERY child edge although Close fails on the aborted edge of the
 // failed child. Stops come with the pipeline drained, against blocked outputs (Close) or at once (Close).
 func genFork(r *kit.Rand) (chain, stop, class string, n int) {
+	if r.Chance(1, 4) {
+		return genMerge(r)
+	}
 	healthy := []string{"post", "where,post", "alert", "influx:7", "post,where", "where,influx:50"}
 	nb := r.Range(2, 3)
 	var br []string
@@ -193,6 +196,41 @@ func genFork(r *kit.Rand) (chain, stop, class string, n int) {
 		if hasFail {
 			class = "drained"
 		}
+	}
+	if strings.Contains(chain, "alert") && n > 300 {
+		n = 300
+	}
+	return
+}
+
+// genMerge: 2-3 branches below `from[,where]` that are merged again by a union or a join node (several PARENTS:
+// edge.multiConsumer with one reader goroutine per parent edge), followed by an output. Judged by the spec oracle
+// only: the stop completes, no goroutine is left, and the outputs below the merging node were handed every accepted
+// point (union: once per parent; join of the branches of one stream: once).
+func genMerge(r *kit.Rand) (chain, stop, class string, n int) {
+	branches := []string{"where", "post", "where,post", "where,where"}
+	nb := r.Range(2, 3)
+	var br []string
+	for k := 0; k < nb; k++ {
+		br = append(br, kit.Pick(r, branches))
+	}
+	kind := kit.Pick(r, []string{"union", "union", "join"})
+	if kind == "join" {
+		nb = 2
+		br = br[:2]
+	}
+	tail := kit.Pick(r, []string{"post", "where,post", "alert", "influx:7"})
+	prefix := kit.Pick(r, []string{"from", "from,where"})
+	chain = prefix + ";" + strings.Join(br, ";") + ";=" + kind + "," + tail
+	switch r.Intn(4) {
+	case 0:
+		class, stop, n = "drained", kit.Pick(r, []string{"task", "delete", "close"}), kit.Pick(r, []int{1, 50, 300})
+	case 1:
+		class, stop, n = "immediate", "close", kit.Pick(r, []int{50, 1200})
+	case 2:
+		class, stop, n = "early", kit.Pick(r, []string{"task", "close"}), 0
+	default:
+		class, stop, n = "gated", "close", kit.Pick(r, []int{30, 300})
 	}
 	if strings.Contains(chain, "alert") && n > 300 {
 		n = 300
